@@ -1138,6 +1138,12 @@ class Exec:
         g = n.generators[0]
         it = self.eval_iter(g.iter, env, fr)
         if it[0] != "concrete":
+            # [c for _ in range(n)] with an element that does not depend on the loop variable: n copies of c
+            tnames = {x.id for x in ast.walk(g.target) if isinstance(x, ast.Name)}
+            if not g.ifs and not (tnames & {x.id for x in ast.walk(n.elt) if isinstance(x, ast.Name)}) and not _has_call(n.elt):
+                v = self.eval(n.elt, env, fr)
+                if is_scalar(v):
+                    return V.ConstList(v, arith("-", it[2], it[1]))
             raise Unsupported(f"comprehension over a symbolic iterable at {loc_of(fr, n)}")
         out = []
         for item in it[1]:
